@@ -284,20 +284,20 @@ def replay(r):
     rfp = bool((r.get("meta") or {}).get("rfp", False))
 
     class Cfg:
-        poi_index = 0
+        poi_index = 2          # the POI is NOT the first parameter: the other entries are decoys on the other side of the tested value
 
     class Pdf:
         config = Cfg()
-    bounds = [(-5.0, 10.0)]
+    bounds = [(-5.0, 10.0)] * 3
     if fn == "_tmu_like":
         vf, vu = val(model.get("v_fixed")), val(model.get("v_free"))
         if vf is None or vu is None:
             return None
         saved = (ts.fixed_poi_fit, ts.fit)
-        ts.fixed_poi_fit = lambda *a, **k: (np.asarray([1.0]), np.asarray(vf))
-        ts.fit = lambda *a, **k: (np.asarray([0.5]), np.asarray(vu))
+        ts.fixed_poi_fit = lambda *a, **k: (np.asarray([3.0, -3.0, 1.0]), np.asarray(vf))
+        ts.fit = lambda *a, **k: (np.asarray([3.0, -3.0, 0.5]), np.asarray(vu))
         try:
-            out = ts._tmu_like(1.0, [1.0], Pdf(), [1.0], bounds, [False], return_fitted_pars=rfp)
+            out = ts._tmu_like(1.0, [1.0], Pdf(), [1.0, 1.0, 1.0], bounds, [False] * 3, return_fitted_pars=rfp)
         finally:
             ts.fixed_poi_fit, ts.fit = saved
         got = float(out[0] if rfp else out)
@@ -310,9 +310,11 @@ def replay(r):
         if None in (tmu, muhat, mu):
             return None
         saved = ts._tmu_like
-        ts._tmu_like = lambda *a, **k: (np.asarray(tmu), (np.asarray([mu]), np.asarray([muhat])))
+        ref = mu if fn == "_qmu_like" else 0.0
+        decoy = ref - 1.0 if muhat > ref else ref + 1.0          # a non-POI entry on the other side of the decision threshold
+        ts._tmu_like = lambda *a, **k: (np.asarray(tmu), (np.asarray([decoy, decoy, mu]), np.asarray([decoy, decoy, muhat])))
         try:
-            out = getattr(ts, fn)(mu, [1.0], Pdf(), [1.0], bounds, [False], return_fitted_pars=rfp)
+            out = getattr(ts, fn)(mu, [1.0], Pdf(), [1.0, 1.0, 1.0], bounds, [False] * 3, return_fitted_pars=rfp)
         finally:
             ts._tmu_like = saved
         got = float(out[0] if rfp else out)
@@ -327,7 +329,7 @@ def replay(r):
         marker = (np.asarray([7.0]), np.asarray([8.0]))
         setattr(ts, callee, lambda *a, **k: (np.asarray(cs), marker) if k.get("return_fitted_pars") else np.asarray(cs))
         try:
-            out = getattr(ts, fn)(1.0, [1.0], Pdf(), [1.0], bounds, [False], return_fitted_pars=rfp)
+            out = getattr(ts, fn)(1.0, [1.0], Pdf(), [1.0, 1.0, 1.0], bounds, [False] * 3, return_fitted_pars=rfp)
         finally:
             setattr(ts, callee, saved)
         got = float(out[0] if rfp else out)
